@@ -8,7 +8,7 @@ import (
 	"fmt"
 	"os"
 
-	_ "verif/internal/checks"
+	"verif/internal/checks"
 	"verif/internal/core"
 )
 
@@ -26,6 +26,8 @@ func main() {
 		os.Exit(run(os.Args[2], os.Args[3]))
 	case "replay":
 		os.Exit(replay(os.Args[2]))
+	case "fs-child":
+		os.Exit(checks.FsChild(os.Args[2:]))
 	}
 	os.Exit(2)
 }
